@@ -290,6 +290,9 @@ func runC05(r *run) {
 				attrs: g.genAttrs(1+g.intn(4), 2, true, true), tagW: 3, minW: 36, name: "other"}
 			encRun(r, "C05", noise)
 		}
+		if i%10 == 4 {
+			encPanicNoise([]string{"c", "l", "j"}[(i/10)%3])
+		}
 		if i%10 == 9 {
 			encStringerNoise([]string{"l", "j", "c"}[(i/10)%3])
 		}
